@@ -3797,8 +3797,13 @@ impl SctpInner {
         if record.abandoned {
             return true;
         }
+        // transmit_count is 1 after the first transmission and is raised each time a
+        // retransmission is scheduled. Nothing is given up before that happens: a
+        // maxRetransmits=0 message used to be abandoned in the transmit() call that
+        // sent it, which took its bytes out of the flight / window accounting while
+        // the peer still had to acknowledge them.
         if let Some(max_r) = record.max_retransmits
-            && record.transmit_count > max_r as u32
+            && record.transmit_count > (max_r as u32).max(1)
         {
             return true;
         }
